@@ -116,9 +116,11 @@ type Outcome struct {
 
 // finish applies floors and known findings, returns the outcome.
 func (r *Res) finish(kf *KFFile) Outcome {
+	// Floors guard against vacuity, not against de-duplication: extracting a helper legitimately merges several
+	// instances into one. A rule fails its floor when it matches nothing, or fewer than half of what was confirmed.
 	for _, f := range r.Floors {
-		if f.Got < f.Want {
-			r.Bad("floor", f.Rule, "", fmt.Sprintf("rule matched %d sites, fewer than the %d confirmed by hand — the rule would pass vacuously", f.Got, f.Want))
+		if f.Want > 0 && (f.Got == 0 || 2*f.Got < f.Want) {
+			r.Bad("floor", f.Rule, "", fmt.Sprintf("rule matched %d sites; %d were confirmed by hand on the pinned tree — fewer than half: the rule would pass (almost) vacuously", f.Got, f.Want))
 		}
 	}
 	var out Outcome
